@@ -352,6 +352,11 @@ func c09Page(x *mc.Exec) {
 				sel = append(sel, all[i].id)
 			}
 		}
+	} else if x.Bool("long id list") {
+		// 20 entries: every id several times, in no particular order, plus unknown ones
+		for i := 0; i < 20; i++ {
+			sel = append(sel, []string{"b", "zz", "a", "d", "b", "c", "yy"}[i%7])
+		}
 	} else {
 		sel = []string{"zz", "b", "b"} // unknown and repeated ids
 	}
